@@ -21,6 +21,10 @@ where
         final(txn).st() == (TxnView { ws: final(txn).st().ws, ..old(txn).st() }),
         //@ob C15 rebuild.stored-working-set-afterwards: index 0 empty; a task is listed iff it exists and satisfies the predicate, exactly once; without renumbering survivors keep their number; with renumbering no gaps; committed
         r is Ok ==> final(txn).stored() == final(txn).st() && rebuild_post(in_working_set, renumber, old(txn).st().ws, old(txn).st().tasks, final(txn).st().ws),
+        //@ob C15 C02 rebuild.fails-only-with-a-storage-error (never OutOfSync)
+        r matches Err(e) ==> storage_err(e),
+        //@ob C15 rebuild.no-trailing-blanks-are-stored
+        r is Ok ==> ws_trim(final(txn).st().ws) == final(txn).st().ws,
         //@ob C15 C04 rebuild.an-error-leaves-the-stored-working-set-untouched
         r is Err ==> final(txn).stored() == old(txn).stored(),
 {
@@ -397,6 +401,8 @@ where
     proof {
         assert(txn.st().ws == final_ws(nn, w.len() as int));
         lemma_final_ws_props(in_working_set, renumber, w, t, nn);
+        assert(forall|j: int| w.len() <= j < nn.len() ==> (#[trigger] nn[j]) is Some) by { reveal(phase12_post); }
+        lemma_final_ws_trimmed(nn, w.len() as int);
     }
     txn.commit()?;
     Ok(())
